@@ -313,6 +313,16 @@ RESTART:
 		return tmconsensus.HandleProposedHeaderBadBlockHash
 	}
 
+	// The block hash only covers the hashes of the two validator sets,
+	// so the validator and public key lists carried alongside them
+	// can be altered in transit without invalidating the hash or the signature.
+	// The kernel adopts NextValidatorSet from a committed header,
+	// so the lists must match the hashes before the header may be stored.
+	if !tmi.ValidatorSetConsistent(ph.Header.ValidatorSet, m.hashScheme) ||
+		!tmi.ValidatorSetConsistent(ph.Header.NextValidatorSet, m.hashScheme) {
+		return tmconsensus.HandleProposedHeaderBadBlockHash
+	}
+
 	// Validate the signature based on the public key the kernel reported.
 	signContent, err := tmconsensus.ProposalSignBytes(ph.Header, ph.Round, ph.Annotations, m.sigScheme)
 	if err != nil {
